@@ -76,9 +76,9 @@ def _constructs_none(cb):
     return False
 
 
-def option_verdict_sites(ctx, g):
-    """calls, in the verifier's scope, of crate functions (not closures) that return `Option<_>` and build `None`
-    themselves: the absence is a result of the callee's computation - for a sub-verifier, its rejection."""
+def option_verdict_sites(ctx, g, proof_adts):
+    """calls, in the verifier's scope, of crate functions (not closures) that are handed the proof, return `Option<_>`
+    and build `None` themselves: the absence is a result of the callee's computation on the proof - its rejection."""
     f = ctx.facts
     out = []
     for bid in sorted(g.scope):
@@ -88,6 +88,10 @@ def option_verdict_sites(ctx, g):
             if not dty.startswith("std::option::Option<") or t["dst"]["p"]:
                 continue
             tg = [c for c in f.call_targets(t, g.ctx_adt) if f.bodies[c].kind != "Closure"]
+            # a sub-verifier: it is handed (part of) the proof. An Option-returning helper that only re-shapes its
+            # inputs (`zip` of two Options) is data, not a verdict
+            tg = [c for c in tg if any(any(p in (f.bodies[c].locals[k]["ty"] or "") for p in proof_adts)
+                                       for k in range(1, f.bodies[c].arg_count + 1))]
             if tg and any(_constructs_none(f.bodies[c]) for c in tg):
                 out.append((bid, i, t))
     return out
@@ -154,7 +158,8 @@ def run_option(rep, ctx, anchor, rule="R3"):
     f = ctx.facts
     n = 0
     per = {}
-    for bid, i, t in option_verdict_sites(ctx, g):
+    proof_adts = sorted({e[0] for e in (anchor.info.get("proof") or ())})
+    for bid, i, t in option_verdict_sites(ctx, g, proof_adts):
         n += 1
         callee = re.sub(r"<.*?>", "", t.get("resolved") or t.get("callee") or "?").replace("::::", "::")
         k = per.get((bid, callee), 0)
